@@ -657,25 +657,44 @@ def check_multiscope_case(ctx, case):
         n.value = n.value + 1
       return w * x + c.value * k + n.value * w
 
-  class Pair(nn.Module):
-    other: nn.Module
-
+  class Leaf2(nn.Module):  # a different parameter name and shape: binding it to the sibling's scope cannot go unnoticed
     @nn.compact
     def __call__(self, x):
-      v = self.param('v', lambda key: F(1))
-      return v * x * x + self.other(x) * v
+      u = self.param('u', lambda key: jnp.asarray([1, 2], jnp.float32))
+      return x * u[0] + u[1]
+
+  lp.KEEP_ALIVE.extend([Leaf, Leaf2])
+  anames = case.get('attr_names', ['other'])
+
+  def pair_call(self, x):
+    v = self.param('v', lambda key: F(1))
+    y = v * x * x + getattr(self, anames[0])(x) * v
+    if len(anames) > 1:
+      y = y + getattr(self, anames[1])(x) * 3
+    return y
+
+  Pair = type('Pair', (nn.Module,), {'__annotations__': {a: nn.Module for a in anames}, '__call__': nn.compact(pair_call)})
+  lp.KEEP_ALIVE.append(Pair)
+
+  def mk_pair():
+    kw = {anames[0]: Leaf(name=anames[0])}
+    if len(anames) > 1:
+      kw[anames[1]] = Leaf2(name=anames[1])
+    return Pair(**kw, name='pair')
 
   def lifted(self, x):
-    pair = Pair(Leaf(name='other'), name='pair')
-    y, bwd = nn.vjp(lambda m, x: m(x), pair, x, vjp_variables=VJ, multi_scope=case['multi_scope'])
+    y, bwd = nn.vjp(lambda m, x: m(x), mk_pair(), x, vjp_variables=VJ, multi_scope=case['multi_scope'])
     g = bwd(ct)
     return y, g[0], g[1]
 
   def plain(self, x):
-    return Pair(Leaf(name='other'), name='pair')(x)
+    return mk_pair()(x)
 
   L, P = make_cls('MSL', lifted), make_cls('MSP', plain)
-  vs = {'params': {'other': {'w': F(case['w'])}, 'pair': {'v': F(case['v'])}}, 'consts': {'other': {'c': F(case['c'])}}, 'stats': {'other': {'n': F(case['n'])}}}
+  a0 = anames[0]
+  vs = {'params': {a0: {'w': F(case['w'])}, 'pair': {'v': F(case['v'])}}, 'consts': {a0: {'c': F(case['c'])}}, 'stats': {a0: {'n': F(case['n'])}}}
+  if len(anames) > 1:
+    vs['params'][anames[1]] = {'u': jnp.asarray([case['v'] + 1, case['w'] - 1], jnp.float32)}
   mut = lp.lf_python(case['mutable'])
   x = F(case['x'])
   li = lp.call(lambda: apply_mod(L, vs, (x,), case['mutable']))
@@ -709,8 +728,10 @@ def check_multiscope_case(ctx, case):
   (y, gv, gx), upd = li[1]
   ry, rgv, rgx, rupd = ref[1]
   # per-scope cotangents, order: attribute scope (`other`) first, then the module's own scope (`pair`)
-  got = [{c: {n: to_int(v) for n, v in d.items()} for c, d in scope_g.items()} for scope_g in gv]
-  want = [{c: {n: to_int(v) for n, v in rgv[c][name].items()} for c in rgv if name in rgv[c]} for name in ('other', 'pair')]
+  ti = lambda t: jax.tree.map(to_int, jax.tree.map(lambda a: np.asarray(a).tolist(), t))
+  got = [{c: {n: ti(v) for n, v in d.items()} for c, d in scope_g.items()} for scope_g in gv]
+  # attribute scopes in the traversal order of the attribute dict (sorted names), then the module's own scope
+  want = [{c: {n: ti(v) for n, v in rgv[c][name].items()} for c in rgv if name in rgv[c]} for name in sorted(anames) + ['pair']]
   obs = (to_int(y), got, to_int(gx), jax.tree.map(to_int, dict(upd)))
   exp = (to_int(ry), want, to_int(rgx), jax.tree.map(to_int, dict(rupd)))
   names = ('primal output', 'variable cotangents per scope', 'input cotangent', 'published collections')
@@ -724,7 +745,8 @@ def gen_multiscope_case(rng):
   return {'kind': 'multiscope', 'k': rng.randrange(1, 3), 'ct': rng.randrange(-2, 4), 'w': rng.randrange(-2, 4), 'v': rng.randrange(-2, 4),
           'c': rng.randrange(-2, 4), 'n': rng.randrange(0, 3), 'x': rng.randrange(-2, 4),
           'vjp_variables': rng.choice(['params', 'params', ['params', 'consts'], 'consts', True]),
-          'mutable': rng.choice([False, ['stats'], 'stats']), 'multi_scope': rng.random() < 0.85}
+          'mutable': rng.choice([False, ['stats'], 'stats']), 'multi_scope': rng.random() < 0.85,
+          'attr_names': rng.choice([['other'], ['scale', 'bias'], ['z', 'a'], ['proj', 'head'], ['a', 'b']])}
 
 
 # ------------------------------------------------------------------------------------------------
@@ -757,6 +779,173 @@ def f34_probe(ctx):
     else:
       ctx.notes.append('unregistered finding jvp-in-only-collection-frozen-container: ' + what)
       ctx.extra.setdefault('unregistered_findings', []).append('jvp-in-only-collection-frozen-container')
+
+
+# ------------------------------------------------------------------------------------------------
+# mutable state >= 2 scope levels below the lifted scope, used directly before and after the lifted call
+# ------------------------------------------------------------------------------------------------
+
+
+def check_deepstate_case(ctx, case):
+  """Net -> blk -> (… ->) ctr: a stateful sub-module `depth` levels below the module handed to nn.vjp / nn.value_and_grad /
+  nn.jvp.  It is called directly before the lifted call (these calls also write a state entry `extra` the lifted call
+  never rewrites), through the lifted transform (updates `count` only), and directly again afterwards; optionally a
+  sibling `ctr2` is only ever used directly.  Reference: the same program over the pure function
+  (params, state, x) -> Counter.apply, with jax.vjp / jax.value_and_grad / jax.jvp for the middle step.  Compared exactly:
+  every output and the final mutable collection (publish = deep merge: updated entries new, untouched ones kept)."""
+  mode, depth, two = case['mode'], case['depth'], case['two']
+  scale0 = case['scale']
+
+  class Counter(nn.Module):
+    @nn.compact
+    def __call__(self, x, mark):
+      count = self.variable('state', 'count', lambda: F(0))
+      extra = self.variable('state', 'extra', lambda: F(0))
+      scale = self.param('scale', lambda key: F(scale0))
+      count.value = count.value + 1
+      if mark:
+        extra.value = extra.value + 1
+      return x * scale * count.value + extra.value
+
+  def mk_mid(inner_cls, with_sibling):
+    def setup(self):
+      self.ctr = inner_cls()
+      if with_sibling:
+        self.ctr2 = Counter()
+
+    def call(self, x, mark, which=0):
+      if which:
+        return self.ctr2(x, mark)
+      return self.ctr(x, mark) if isinstance(self.ctr, Counter) else self.ctr(x, mark, 0)
+
+    M = type('Blk', (nn.Module,), {'setup': setup, '__call__': call})
+    lp.KEEP_ALIVE.append(M)
+    return M
+
+  lp.KEEP_ALIVE.append(Counter)
+  chain = Counter
+  for lvl in range(depth - 1):
+    chain = mk_mid(chain, two and lvl == depth - 2)  # the sibling sits directly under Net.blk
+  # path of the counter (and of its sibling) below Net.blk
+  inner_path = ['ctr'] * (depth - 1)
+
+  def nest(path, leaf):
+    for k in reversed(path):
+      leaf = {k: leaf}
+    return leaf
+
+  def setup(self):
+    self.blk = chain()
+
+  def direct(mdl, x, which=0):
+    return mdl.blk(x, True, which) if depth > 1 else mdl.blk(x, True)
+
+  def lifted_fn(mdl, x):
+    return mdl.blk(x, False, 0) if depth > 1 else mdl.blk(x, False)
+
+  def net_call(self, x):
+    pre = tuple(direct(self, x) for _ in range(case['pre']))
+    if two:
+      pre = pre + (direct(self, x, 1),)
+    if mode == 'vjp':
+      y1, bwd = nn.vjp(lifted_fn, self, x)
+      g = bwd(F(case['ct']))
+      ad = (y1, tuple(jax.tree.leaves(g[0])), g[1])
+    elif mode == 'vag':
+      v, (gx,) = nn.value_and_grad(lambda m, x: lifted_fn(m, x) ** 2, self, x)
+      ad = (v, gx)
+    else:
+      ptan = jax.tree.map(lambda a: jnp.zeros_like(a), self.variables['params'])
+      ptan = jax.tree.map(lambda a: a, ptan)
+      leafpath = ['blk'] + inner_path
+      d = ptan
+      for k in leafpath:
+        d = d[k]
+      d['scale'] = F(case['ts'])
+      y1, t1 = nn.jvp(lifted_fn, self, (x,), (F(case['tx']),), {'params': ptan})
+      ad = (y1, t1)
+    post = tuple(direct(self, x) for _ in range(case['post']))
+    if two:
+      post = post + (direct(self, x, 1),)
+    return pre, ad, post
+
+  Net = type('Net', (nn.Module,), {'setup': setup, '__call__': net_call})
+  lp.KEEP_ALIVE.append(Net)
+  x = F(case['x'])
+  leaf_p = {'scale': F(scale0)}
+  leaf_s = {'count': F(case['count']), 'extra': F(case['extra'])}
+  blk_p, blk_s = nest(inner_path, leaf_p), nest(inner_path, leaf_s)
+  if two:
+    blk_p = dict(blk_p, ctr2={'scale': F(case['scale2'])})
+    blk_s = dict(blk_s, ctr2={'count': F(0), 'extra': F(5)})
+  variables = {'params': {'blk': blk_p}, 'state': {'blk': blk_s}}
+  canon = lambda t: jax.tree.map(to_int, t)
+  got = lp.call(lambda: canon(Net().apply(jax.tree.map(lambda a: a, variables), x, mutable=['state'])))
+
+  # reference: the same program over the pure apply of the stateful leaf
+  def reference():
+    sub = Counter()
+    st = {0: dict(leaf_s), 1: {'count': F(0), 'extra': F(5)}}
+    pr = {0: dict(leaf_p), 1: {'scale': F(case['scale2'])}}
+
+    def pure(p, s, x, mark):
+      return sub.apply({'params': p, 'state': s}, x, mark, mutable=['state'])
+
+    def run_direct(which):
+      y, upd = pure(pr[which], st[which], x, True)
+      st[which] = dict(upd['state'])
+      return y
+
+    pre = tuple(run_direct(0) for _ in range(case['pre']))
+    if two:
+      pre = pre + (run_direct(1),)
+    if mode == 'vjp':
+      y1, bwd, upd = jax.vjp(lambda p, x: pure(p, st[0], x, False), pr[0], x, has_aux=True)
+      gp, gx = bwd(F(case['ct']))
+      gl = [gp['scale']] + ([jnp.zeros(())] if two else [])
+      ad = (y1, tuple(gl), gx)
+    elif mode == 'vag':
+      def scalar(x):
+        y, upd = pure(pr[0], st[0], x, False)
+        return y ** 2, upd
+
+      (v, upd), gx = jax.value_and_grad(scalar, has_aux=True)(x)
+      ad = (v, gx)
+    else:
+      (y1, upd), (t1, _) = jax.jvp(lambda p, x: pure(p, st[0], x, False), (pr[0], x), ({'scale': F(case['ts'])}, F(case['tx'])))
+      ad = (y1, t1)
+    st[0] = dict(upd['state'])
+    post = tuple(run_direct(0) for _ in range(case['post']))
+    if two:
+      post = post + (run_direct(1),)
+    fs = nest(inner_path, st[0])
+    if two:
+      fs = dict(fs, ctr2=st[1])
+    return (pre, ad, post), {'state': {'blk': fs}}
+
+  want = lp.call(lambda: canon(reference()))
+  ctx.case(case)
+  ctx.count('transform', f'deepstate-{mode}/depth{depth}' + ('/sibling' if two else ''))
+  if want[0] != 'ok':
+    from harness.common import InfraError
+
+    raise InfraError(f'deepstate reference failed: {want}')
+  if got != want:
+    parts = []
+    if got[0] == 'ok':
+      names = ('direct calls before', 'lifted autodiff results', 'direct calls after')
+      parts = [n for n, a, b in zip(names, got[1][0], want[1][0]) if a != b]
+      if got[1][1] != want[1][1]:
+        parts.append('final mutable collection')
+    ctx.violation(f'deepstate-{mode}-differs', f'nn.{mode} over a module whose stateful descendant (depth {depth}) is used directly before and after the lifted call: {parts or got} differ: got {got} vs pure-JAX reference {want} on {json.dumps(case)}', case)
+
+
+def gen_deepstate_case(rng):
+  depth = rng.choice([2, 2, 3])
+  return {'kind': 'deepstate', 'mode': rng.choice(['vjp', 'vag', 'jvp']), 'depth': depth, 'two': rng.random() < 0.5,
+          'scale': rng.randrange(1, 4), 'scale2': rng.randrange(1, 4), 'count': rng.randrange(0, 3), 'extra': rng.randrange(0, 3),
+          'x': rng.randrange(1, 4), 'pre': rng.randrange(1, 3), 'post': rng.randrange(1, 3), 'ct': rng.randrange(1, 4),
+          'ts': rng.randrange(0, 3), 'tx': rng.randrange(0, 3)}
 
 
 # ------------------------------------------------------------------------------------------------
@@ -845,6 +1034,8 @@ def run_case(ctx, drv, case):
       check_custom_under_grad(ctx, case)
   elif case.get('kind') == 'multiscope':
     check_multiscope_case(ctx, case)
+  elif case.get('kind') == 'deepstate':
+    check_deepstate_case(ctx, case)
   else:
     ctx.notes.append(f'unknown corpus case kind {case.get("kind")}')
 
@@ -858,13 +1049,21 @@ def run(ctx):
     run_case(ctx, drv, obj.get('case', obj))
   scale = 12 if thorough else 1
   plan = [('vjp', 110), ('jvp', 70), ('vag', 40), ('grad', 30), ('custom', 30)]
-  cases = [gen_multiscope_case(rng) for _ in range(14 * scale)]
+  cases = [gen_deepstate_case(rng) for _ in range(14 * scale)] + [gen_multiscope_case(rng) for _ in range(14 * scale)]
   for kind, n in plan:
     for _ in range(n * scale):
       c = gen_case(rng, kind)
       if kind in ('vjp', 'jvp', 'vag'):
         c['outer_grad'] = rng.random() < {'vjp': 0.5, 'jvp': 0.3, 'vag': 0.3}[kind]
       if kind == 'custom':
+        if len([x for x in cases if x['kind'] == 'custom']) % 3 == 0:
+          # every third case: a module without any variable in the `grad_vars` collections (parameter-free for the
+          # custom rule), read-only body, differentiated w.r.t. its inputs — the user's rule must still be used
+          # (`decl` pushes a register: replaced by `has`, which pushes one too, so the expressions stay well-formed)
+          c['fn']['body'] = [(['has', ins[1], ins[2]] if ins[0] == 'decl' else ins) for ins in c['fn']['body'] if ins[0] != 'put']
+          c['grad_vars'] = 'gradless'
+          c['placement'], c['suffix'] = 'root', []
+          c.pop('siblings', None)
         c['under_grad'] = not lp.fn_wcols(c['fn']) and c['placement'] == 'root'
       cases.append(c)
   for case in cases:
